@@ -160,7 +160,7 @@ func (db *MemDB) Bucket(name []byte) DBBucket {
 
 // CreateBucket implements DB.
 func (db *MemDB) CreateBucket(name []byte) (DBBucket, error) {
-	if db.buckets[string(name)] != nil {
+	if db.Bucket(name) != nil {
 		return nil, errors.New("bucket already exists")
 	}
 	db.puts[string(name)] = make(map[string][]byte)
